@@ -207,7 +207,12 @@ func (e *Env) Teardown() {
 	}()
 	select {
 	case <-done:
-	case <-time.After(5 * time.Second):
+	case <-time.After(60 * time.Second):
+		// Close does not return (a lock leaked by the code under test): leave the directory
+		// alone, a flusher that is still alive would panic on a vanished root; the driver
+		// removes the whole work directory at the end
+		sod.LowercaseNames = false
+		return
 	}
 	os.RemoveAll(e.root)
 	sod.LowercaseNames = false
